@@ -1100,8 +1100,27 @@ func c19ResumeConfig(c *Ctx, cr *lib.Rng, b *lib.Build, class, flavor string, wo
 			}
 			if d := lib.DiffBuilds(got, b); d != "" {
 				oracle = fmt.Sprintf("after interruption(s) %v and restart (resume file said %d) the tree is not complete: %s", chain, lastDone, d)
-			} else if want := c19CountKinds(ents, lastDone); final.Counts != want {
-				oracle = fmt.Sprintf("restarted run reports %+v, it extracted %+v (entries above index %d)", final.Counts, want, lastDone)
+			} else {
+				// the restarted run extracted at least what was missing or incomplete, at most everything
+				var lo c19Counts
+				for _, e := range b.Entries {
+					k := killTree.Get(e.Path)
+					if k != nil && k.Kind == e.Kind && bytes.Equal(k.Data, e.Data) && k.Dest == e.Dest {
+						continue
+					}
+					switch e.Kind {
+					case "dir":
+						lo.Dirs++
+					case "file":
+						lo.Files++
+					case "link":
+						lo.Symlinks++
+					}
+				}
+				hi := c19BuildCounts(b)
+				if c := final.Counts; c.Dirs < lo.Dirs || c.Files < lo.Files || c.Symlinks < lo.Symlinks || c.Dirs > hi.Dirs || c.Files > hi.Files || c.Symlinks > hi.Symlinks {
+					oracle = fmt.Sprintf("restarted run reports %+v; %+v were missing or incomplete at the interruption, the archive has %+v", c, lo, hi)
+				}
 			}
 		}
 		os.RemoveAll(out)
